@@ -834,8 +834,16 @@ fn parse_cmd(cmds: &mut Vec<Cmd>, pair: Pair<Rule>) {
 				cmds.push(repeat_cmd);
 			}
 			Rule::cut_cmd => {
-				let cut_cmd = parse_argument(pair.into_inner().next().unwrap());
-				let cmd = Cmd::Field(cut_cmd);
+				let mut inner = pair.into_inner();
+				let first = inner.next().unwrap();
+				let cmd = if first.as_rule() == Rule::name_def {
+					// cut name="<NAME>" <VIM_CMD>
+					let name = first.into_inner().next().unwrap().as_str().to_string();
+					let cut_cmd = parse_argument(inner.next().unwrap());
+					Cmd::NamedField(name, cut_cmd)
+				} else {
+					Cmd::Field(parse_argument(first))
+				};
 				cmds.push(cmd);
 			}
 			Rule::move_cmd => {
